@@ -71,7 +71,20 @@ def run_impl(case):
                 v = ec.eccentricity(case["n"], case["m"], case["weight"]) if not case.get("direct") else \
                     ec.eccentricity_from_particles(case["n"], case["m"], case["weight"])
             else:
-                ec = EventCharacteristics(mk_lattice(case))
+                if case.get("late_fill"):
+                    # the wrapper is bound to the lattice first; the densities are filled in (in place) afterwards, and the
+                    # lattice has been evaluated once with other content: the result is that of the CURRENT node densities
+                    L = mk_lattice(case)
+                    final = L.grid_.copy()
+                    L.grid_[...] = 0.0 if case["late_fill"] == "zeros" else final[::-1, ::-1, :] + 1.0
+                    ec = EventCharacteristics(L)
+                    try:
+                        ec.eccentricity(case["hn"], case["m"])
+                    except Exception:
+                        pass
+                    L.grid_[...] = final
+                else:
+                    ec = EventCharacteristics(mk_lattice(case))
                 v = ec.eccentricity(case["hn"], case["m"])
         except Exception as e:
             return {"status": "err", "err": errname(e)}
@@ -160,15 +173,16 @@ def oracle(case):
     ref = run_impl(variant(case, pts=[(-x, y) for x, y in xy]))
     if ref["status"] != "ok" or not close(complex(ref["re"], ref["im"]), (-1) ** n * eps.conjugate(), amp):
         return f"reflection x -> -x: got {ref}, expected (-1)^n conj(eps) = {(-1) ** n * eps.conjugate()!r}"
-    for lam in (2.0, 0.5, 3.0):
+    for lam in (2.0, 0.5, 3.0, 2.0 ** -14, 2.0 ** -24, 2.0 ** 12):       # powers of two: exact, any length unit
         sc = run_impl(variant(case, pts=[(lam * x, lam * y) for x, y in xy]))
         if sc["status"] != "ok" or not close(complex(sc["re"], sc["im"]), eps, amp):
             return f"scaling the positions by {lam}: got {sc}, expected eps = {eps!r}"
     if case["weight"] != "number":
         mu = 3.0 if case["weight"] == "energy" else 3
-        sw = run_impl(variant(case, weights=[mu * p[WATTR[case["weight"]]] for p in case["particles"]]))
-        if sw["status"] != "ok" or not close(complex(sw["re"], sw["im"]), eps, amp):
-            return f"scaling the weights by {mu}: got {sw}, expected eps = {eps!r}"
+        for mu in ([mu, 2.0 ** -40, 2.0 ** 30] if case["weight"] == "energy" else [mu]):
+            sw = run_impl(variant(case, weights=[mu * p[WATTR[case["weight"]]] for p in case["particles"]]))
+            if sw["status"] != "ok" or not close(complex(sw["re"], sw["im"]), eps, amp):
+                return f"scaling the weights by {mu}: got {sw}, expected eps = {eps!r}"
     sh = json.loads(json.dumps(case))
     sh["particles"] = list(reversed(sh["particles"]))
     rs = run_impl(sh)
@@ -225,8 +239,11 @@ def gen_lattice(rng):
     dens = [float(rng.choice([0, 0, 1, 2, 0.5, 3, 0.25])) for _ in range(n[0] * n[1] * n[2])]
     if rng.random() < 0.3:
         dens = [d if rng.random() < 0.8 else -d for d in dens]
-    return {"kind": "lattice", "hn": rng.choice([1, 2, 2, 3, 4, 5]), "m": rng.choice([None, None, 1, 2, 3, 4]),
+    case = {"kind": "lattice", "hn": rng.choice([1, 2, 2, 3, 4, 5]), "m": rng.choice([None, None, 1, 2, 3, 4]),
             "ext": ext, "n": n, "dens": dens}
+    if rng.random() < 0.4:
+        case["late_fill"] = rng.choice(["zeros", "other"])
+    return case
 
 
 def gen_case(rng, small=False):
